@@ -13,6 +13,9 @@ open Proto Params
                                            fewer than three items = a too short sequence
       setv <name> <bits>
       union <left 0|1> <name/ini/lo/hi/fx;...|->
+      unionN <pos> <set+set+…|->            set = name/ini/lo/hi/fx;… or _ (empty set); self is inserted at pos
+      chfix <name> <bits>                  change_fixed_value + update_fixed_param_value_cache
+      chfixraw <name> <bits> | updcache    the two calls separately (the cache is stale in between)
       copy
       map <name> <ini> <lo> <hi> <fx> <models N|-|i,j,..> <aliases N|S/a|L/a/b/..>
          -> ok | ERR:<exception class>
@@ -112,6 +115,11 @@ def pOp (toks : List String) : Option (Op Float) :=
   | ["setv", n, v] => some (.setv n (pF v))
   | ["union", left, other] =>
       some (.union (if other == "-" then [] else (other.splitOn ";").map pArgs1) (pB left))
+  | ["unionN", pos, others] =>
+      let sets := if others == "-" then [] else (others.splitOn "+").map (fun o =>
+        if o == "_" then [] else (o.splitOn ";").map pArgs1)
+      some (.unionN sets (pN pos))
+  | ["chfix", n, v] => some (.chfix n (pF v))
   | ["copy"] => some .copy
   | ["map", name, ini, lo, hi, fx, ms, al] => some (.map (pArgs name ini lo hi fx) (pSel ms) (pAlias al))
   | _ => none
@@ -208,6 +216,14 @@ def stepLine (stack : List St) (line : String) : List St × String :=
   | ["pview", g, sel], St.pmm s :: _ => (stack, fPMM s (pList pF g) (pSel sel))
   | ["pview2", g, names, idxs], St.pmm s :: _ =>
       (stack, fPMM2 s (pList pF g) (pList id names) (pList pN idxs))
+  | ["chfixraw", n, v], St.ps s :: rest =>
+      let r := s.changeFixedRaw n (pF v); (St.ps r.1 :: rest, fRes r.2)
+  | ["chfixraw", n, v], St.pmm s :: rest =>
+      let r := s.gps.changeFixedRaw n (pF v); (St.pmm { s with gps := r.1 } :: rest, fRes r.2)
+  | ["updcache"], St.ps s :: rest =>
+      let r := s.updateFixedValueCache; (St.ps r.1 :: rest, fRes r.2)
+  | ["updcache"], St.pmm s :: rest =>
+      let r := s.gps.updateFixedValueCache; (St.pmm { s with gps := r.1 } :: rest, fRes r.2)
   | _, top :: rest =>
       match pOp toks with
       | none => (stack, "bad-op")
